@@ -24,6 +24,8 @@ pub struct ChainFaults {
     pub sleep_us: HashMap<u64, u64>,
     /// init_position draws the starting point from the random stream it is given
     pub random_init: bool,
+    /// math() draws the location of the density from the random stream it is given
+    pub random_math: bool,
 }
 
 pub struct TestModel {
@@ -76,6 +78,13 @@ impl Model for TestModel {
         // call 0 is the controller's (schema only); calls 1.. are chains in start order, which with
         // the FIFO scope equals chain order when chains start one after another
         let mut l = self.proto.clone();
+        if self.faults.random_math {
+            // a randomised density: its location comes from the stream handed to math()
+            let w = rng.next_u32();
+            if l.dim > 0 {
+                l.mu[0] += (w as f64) / 4294967296.0 - 0.5;
+            }
+        }
         l.log = Arc::new(Mutex::new(EvalLog::default()));
         l.expand_count = Arc::new(Mutex::new(0));
         if k >= 1 {
